@@ -146,6 +146,9 @@ theorem pathsFrom_complete (g : LGraph) : ∀ (fuel : Nat) (visited : List Node)
 /-- the end points of every edge are nodes (what `networkx` guarantees; every model operation preserves it) -/
 def WF {ν π : Type} (g : Graph ν π) : Prop := ∀ e ∈ g.edges, e.1 ∈ g.nodes ∧ e.2 ∈ g.nodes
 
+instance decWF {ν π : Type} [DecidableEq ν] (g : Graph ν π) : Decidable (WF g) := by
+  unfold WF; exact inferInstance
+
 theorem length_le_of_nodup_subset {α : Type} [DecidableEq α] : ∀ (l m : List α), l.Nodup → (∀ x ∈ l, x ∈ m) →
     l.length ≤ m.length
   | [], _, _, _ => Nat.zero_le _
